@@ -263,25 +263,25 @@ Section ErrInv.
 
   Lemma declare_start_states_wf : forall excl i dl ll st errs,
     bnd src i -> ss_wf st -> errs_wf errs ->
-    twf (fun _ => True) (declare_start_states src excl i dl ll st errs).
+    twf (fun _ => True) (declare_start_states src fx excl i dl ll st errs).
   Proof.
     intros excl i dl ll st errs Hi Hst He. unfold declare_start_states.
     apply twf_lbind_lift. intros raw Hraw.
-    pose proof (declared_names_selects src _ _ _ Hraw) as Hsel.
+    pose proof (declared_names_selects src (fix_decl_blanks fx) _ _ _ Hraw) as Hsel.
     destruct (trim is_ws raw) as [|c0 params] eqn:Etrim; cbv beta iota zeta.
     - simpl. split; [exact He|]. apply mk_error_wf. exact Hi.
     - assert (Hn : Forall (fun p => wfs src (snd p))
-                     (declared_names (i + dl + byte_len (take_while is_ws raw)) (c0 :: params))).
+                     (declared_names (fix_decl_blanks fx) (i + dl + byte_len (take_while is_ws raw)) (c0 :: params))).
       { eapply Forall_impl; [|exact Hsel]. intros [n sp] Hs. cbn [fst snd] in *. eapply selects_wfs. exact Hs. }
       pose proof (declare_loop_wf excl _ st errs Hst Hn He) as Hdl.
-      destruct (declare_loop excl (declared_names (i + dl + byte_len (take_while is_ws raw)) (c0 :: params)) st errs)
+      destruct (declare_loop excl (declared_names (fix_decl_blanks fx) (i + dl + byte_len (take_while is_ws raw)) (c0 :: params)) st errs)
         as [st' errs'|errs' e| |]; cbn [twf] in Hdl |- *; [|exact Hdl|exact I|exact I].
       destruct Hdl as [_ He']. apply twf_lbind_lift. intros k _. cbn [twf]. split; [exact I|exact He'].
   Qed.
 
   Lemma parse_declaration_wf : forall i st errs,
     bnd src i -> ss_wf st -> errs_wf errs ->
-    twf (fun _ => True) (parse_declaration src i st errs).
+    twf (fun _ => True) (parse_declaration src fx i st errs).
   Proof.
     intros i st errs Hi Hst He. unfold parse_declaration.
     apply twf_lbind_lift. intros ll _. apply twf_lbind_lift. intros line0 _. cbv zeta.
@@ -293,7 +293,7 @@ Section ErrInv.
 
   Lemma parse_declarations_loop_wf : forall fuel i st errs,
     inv src st -> errs_wf errs ->
-    twf (fun x => inv src (snd x)) (parse_declarations_loop src awc fuel i st errs).
+    twf (fun x => inv src (snd x)) (parse_declarations_loop src awc fx fuel i st errs).
   Proof.
     induction fuel as [|fuel IH]; intros i st errs Hst He; [exact I|].
     cbn [parse_declarations_loop].
@@ -305,13 +305,13 @@ Section ErrInv.
       + apply twf_lbind_lift. intros sep _. destruct sep as [j|].
         * apply twf_lbind_lift. intros k _. cbn [twf snd]. split; [exact Hst|exact He].
         * pose proof (parse_declaration_wf i1 st errs Hb (inv_ss_wf _ Hst) He) as Hd.
-          destruct (parse_declaration src i1 st errs) as [[i2 st2] errs2|errs2 e| |] eqn:Ed;
+          destruct (parse_declaration src fx i1 st errs) as [[i2 st2] errs2|errs2 e| |] eqn:Ed;
             cbn [twf] in Hd |- *; [|exact Hd|exact I|exact I].
           apply IH; [|apply Hd]. eapply parse_declaration_inv; eauto.
   Qed.
 
   Lemma parse_declarations_wf : forall fuel i,
-    twf (fun x => inv src (snd x)) (parse_declarations src awc fuel i initial_state []).
+    twf (fun x => inv src (snd x)) (parse_declarations src awc fx fuel i initial_state []).
   Proof.
     intros fuel i. unfold parse_declarations. apply twf_lbind_lift. intros i1 _.
     apply parse_declarations_loop_wf; [apply inv_initial|constructor].
@@ -454,7 +454,7 @@ Section ErrInv.
     assert (Hf : forall st e, errs_wf e -> Done (finish st e) = Done (PErrs errs) -> errs_wf errs).
     { intros st e He Hfe. unfold finish in Hfe. destruct e as [|e0 e']; inversion Hfe; subst errs. exact He. }
     pose proof (parse_declarations_wf fuel start) as Hd.
-    destruct (parse_declarations src awc fuel start initial_state []) as [[i1 st1] errs1|errs1 e1| |];
+    destruct (parse_declarations src awc fx fuel start initial_state []) as [[i1 st1] errs1|errs1 e1| |];
       try discriminate; cbn [twf snd] in Hd.
     - destruct Hd as [Hst1 He1].
       pose proof (parse_rules_wf fuel i1 st1 errs1 Hst1 He1) as Hr.
